@@ -417,3 +417,76 @@ def skeleton_ops(text, op_rx, extra, alias):
 
 def coq_string_list(name, items):
     return 'Definition %s : list string :=\n  %s.' % (name, coq_list([coq_string(x) for x in items]))
+
+
+def cfg_filter(body, cfg_env=LINUX_X86_64):
+    """Remove, from a (comment/string-stripped) function body, every statement, block, match arm or
+    nested item that carries a `#[cfg(..)]` attribute which is false for cfg_env; attributes that
+    are true (and non-cfg attributes) are dropped, their item stays."""
+    out = []
+    i, n = 0, len(body)
+    while i < n:
+        if body[i] == '#' and i + 1 < n and body[i + 1] == '[':
+            rb = match_brace(body, i + 1, '[', ']')
+            attr = body[i + 2:rb].strip()
+            mm = re.match(r'^cfg\s*\((.*)\)$', attr, re.S)
+            j = rb + 1
+            if mm and not cfg_eval(mm.group(1), cfg_env):
+                # skip further attributes of the same item, then the item itself
+                while True:
+                    k = j
+                    while k < n and body[k].isspace():
+                        k += 1
+                    if k + 1 < n and body[k] == '#' and body[k + 1] == '[':
+                        j = match_brace(body, k + 1, '[', ']') + 1
+                        continue
+                    break
+                depth = 0
+                while j < n:
+                    c = body[j]
+                    if c in '([':
+                        depth += 1
+                    elif c in ')]':
+                        depth -= 1
+                    elif c == '{' and depth == 0:
+                        j = match_brace(body, j) + 1
+                        # `expr {..}` may be followed by `else {..}` or be a match arm ending in ','
+                        k = j
+                        while k < n and body[k].isspace():
+                            k += 1
+                        if body.startswith('else', k):
+                            j = k + 4
+                            continue
+                        if k < n and body[k] in ',;':
+                            j = k + 1
+                        break
+                    elif c in ';,' and depth == 0:
+                        j += 1
+                        break
+                    elif c == '}' and depth == 0:
+                        break
+                    j += 1
+                i = j
+                continue
+            i = j
+            continue
+        out.append(body[i])
+        i += 1
+    return ''.join(out)
+
+
+RUST_KEYWORDS = {'if', 'while', 'for', 'match', 'loop', 'return', 'fn', 'let', 'unsafe', 'move', 'in', 'as', 'else', 'Some', 'None', 'Ok', 'Err'}
+
+
+def all_calls(body):
+    """Every call in textual order: path or method name followed by '(' (macros `name!(` included
+    with their '!'); keywords and the Option/Result constructors are left out."""
+    res = []
+    for m in re.finditer(r'((?:[A-Za-z_]\w*\s*::\s*)*[A-Za-z_]\w*)\s*(!?)\s*\(', body):
+        name = re.sub(r'\s+', '', m.group(1))
+        last = name.split('::')[-1]
+        if last in RUST_KEYWORDS and not m.group(2):
+            continue
+        pre = body[:m.start()].rstrip()
+        res.append(('.' if pre.endswith('.') else '') + name + m.group(2))
+    return res
